@@ -311,6 +311,12 @@ def _immut(spec, ctx, R):
             ctx.hit("alias:pairs_evaluated")
             ctx.check("alias:same_object_equals_copy", a["same_object"] == a["copy"], site=name, tags=[st], detail={"argument_pair": pr})
             ctx.check("alias:view_equals_copy", a["view"] == a["copy"], site=name, tags=[st], detail={"argument_pair": pr})
+        for pr, a in (rec.get("view_history") or {}).items():
+            if "error" in a:
+                continue
+            ctx.hit("history:view_of_previous_argument")
+            ctx.check("history:view_of_previous_equals_fresh_buffer", a["view_of_previous"] == a["fresh_buffer"], site=name, tags=[st],
+                      detail={"argument:view": pr, **a})
     if lay == "C" and size is None:
         ctx.sample({"battery_entries": sorted(got)[:12] + ["..."], "n_entries": len(got), "layouts": gen.LAYOUTS, "size_variants": [None, 1, 2, 3, 5]})
 
